@@ -87,7 +87,7 @@ func BuildParserFacts(w *World) (*ParserFacts, error) {
 		node, field string
 		list        bool
 	}
-	ctor := map[*ssa.Function]map[int]pslot{}
+	ctor := map[*ssa.Function]map[int][]pslot{}
 	fns := w.Funcs("parser")
 	isSlotField := func(fa *ssa.FieldAddr) (string, string, bool, bool) {
 		pt, ok := fa.X.Type().Underlying().(*types.Pointer)
@@ -125,14 +125,25 @@ func BuildParserFacts(w *World) (*ParserFacts, error) {
 					continue
 				}
 				v := st.Val
-				// parameter stored (possibly wrapped into a literal list / interface)
-				if p := paramOrigin(v); p != nil && fn.Parent() == nil {
-					for i, fp := range fn.Params {
-						if fp == p {
-							if ctor[fn] == nil {
-								ctor[fn] = map[int]pslot{}
+				// parameter stored (possibly wrapped into a literal list / interface, or one of
+				// several parameters chosen inside the constructor)
+				if ps := paramOrigins(v, 0); len(ps) > 0 && fn.Parent() == nil {
+					for _, p := range ps {
+						for i, fp := range fn.Params {
+							if fp == p {
+								if ctor[fn] == nil {
+									ctor[fn] = map[int][]pslot{}
+								}
+								dup := false
+								for _, e := range ctor[fn][i] {
+									if e.node == node && e.field == field {
+										dup = true
+									}
+								}
+								if !dup {
+									ctor[fn][i] = append(ctor[fn][i], pslot{node, field, list})
+								}
 							}
-							ctor[fn][i] = pslot{node, field, list}
 						}
 					}
 					continue
@@ -154,9 +165,11 @@ func BuildParserFacts(w *World) (*ParserFacts, error) {
 				if callee == nil || ctor[callee] == nil {
 					continue
 				}
-				for i, ps := range ctor[callee] {
-					if i < len(c.Call.Args) {
-						pf.Slots = append(pf.Slots, SlotStore{Fn: fn, Node: ps.node, Field: ps.field, Val: c.Call.Args[i], Instr: c, Via: "ctor:" + callee.Name(), List: ps.list})
+				for i, pss := range ctor[callee] {
+					for _, ps := range pss {
+						if i < len(c.Call.Args) {
+							pf.Slots = append(pf.Slots, SlotStore{Fn: fn, Node: ps.node, Field: ps.field, Val: c.Call.Args[i], Instr: c, Via: "ctor:" + callee.Name(), List: ps.list})
+						}
 					}
 				}
 			}
@@ -165,6 +178,28 @@ func BuildParserFacts(w *World) (*ParserFacts, error) {
 	sort.SliceStable(pf.Slots, func(i, j int) bool { return pf.Slots[i].Instr.Pos() < pf.Slots[j].Instr.Pos() })
 	pf.computeTypeInfo()
 	return pf, nil
+}
+
+// paramOrigins: v is a parameter or a choice (phi) among parameters, possibly wrapped.
+func paramOrigins(v ssa.Value, depth int) []*ssa.Parameter {
+	if depth > 3 {
+		return nil
+	}
+	if ph, ok := v.(*ssa.Phi); ok {
+		var out []*ssa.Parameter
+		for _, e := range ph.Edges {
+			ps := paramOrigins(e, depth+1)
+			if len(ps) == 0 {
+				return nil
+			}
+			out = append(out, ps...)
+		}
+		return out
+	}
+	if p := paramOrigin(v); p != nil {
+		return []*ssa.Parameter{p}
+	}
+	return nil
 }
 
 // paramOrigin: v is a parameter, possibly wrapped (interface conversion, one-element literal list).
